@@ -392,6 +392,22 @@ def execute(case: dict) -> dict:
 
     elif cat == 'unary':
         a = mk_container(inp['a'])
+        # adding a zero scalar on either side is still leaf-wise arithmetic: values and promoted dtypes of `leaf + 0`
+        a_int = jax.tree.map(lambda l: jnp.asarray(np.asarray(l).real.astype(np.int32)), a)     # the same container, integer
+        for zname, zero, a in [(z, v, c) for c in (a, a_int) for z, v in (('int0', 0), ('float0', 0.0))] + [('keep', None, a)]:
+            if zero is None:
+                break           # restores `a` for the checks below
+            for side, fz in (('reflected', lambda: zero + a), ('direct', lambda: a + zero)):
+                vz, ez = _call(fz)
+                if ez is not None:
+                    fails.append((f'zero_{side}_{zname}', f'raised {ez}'))
+                    continue
+                for name in a.stokes.lower():
+                    got, leaf = getattr(vz, name), getattr(a, name)
+                    wantl = (zero + leaf) if side == 'reflected' else (leaf + zero)
+                    if got.dtype != wantl.dtype or got.shape != wantl.shape or not np.array_equal(np.asarray(got), np.asarray(wantl)):
+                        fails.append((f'zero_{side}_{zname}', f'component {name}: {got.dtype} {got!r} instead of {wantl.dtype}'))
+                        break
         val, exc = _call({'neg': lambda: -a, 'abs': lambda: abs(a), 'pos': lambda: +a}[par['uop']])
         obs['exc'] = exc
         if _expect(exp['err'], exc, fails, par['uop']):
@@ -554,6 +570,11 @@ def execute(case: dict) -> dict:
         if _expect(exp['err'], exc, fails, f"dot({par['xtree']}, {par['ytree']})"):
             obs['result'] = obs_leaf(val)
             cmp_leaf(obs['result'], exp['c'], 'dot', fails, gauss=True)
+        # the same definition with the SAME object on both sides: dot(x, x) = sum of <leaf, leaf> (Hermitian: real, >= 0)
+        val2, exc2 = _call(lambda: ftree.dot(x, x))
+        want2 = sum(np.vdot(np.asarray(l), np.asarray(l)) for l in jax.tree.leaves(x))
+        if exc2 is not None or not np.allclose(np.asarray(val2), want2, rtol=1e-5, atol=1e-5):
+            fails.append(('dot_same_object', f'dot(x, x) = {val2!r} {exc2}, sum of leaf inner products = {want2!r}'))
     else:
         raise HarnessBug(f'unknown category {cat}')
 
